@@ -5,7 +5,7 @@ Nothing in mc/solverlab.py is edited: the extra cost is registered under a
 ``c11_`` name and the extra configuration / operations live in the subclass.
 """
 import numpy as np
-from mc import solverlab, env
+from mc import solverlab
 from ref import c11_detect as ref
 
 INF = float('inf')
@@ -40,13 +40,15 @@ solverlab.STARTS.setdefault(8, [[1.0, 0.0, 0.75, 0.25, 0.5, 0.5, 0.5, 0.5078125]
 
 # ------------------------------------------------------------------ termination specs (JSON-able)
 def build_term(spec):
-    """['Or', s1, s2...] | ['And', ...] | ['COG', tol, gens] | ['VTR', tol, target]
+    """['Or', s1, s2...] | ['And', ...] | ['When', s] | ['COG', tol, gens] | ['VTR', tol, target]
     | ['At', target, tol, gens, mask] | ['As', offset, tol, gens, mask]   masks: None or a list of ints / 2-lists
     | ['W', tol, gens, mmask] | ['P', tol, gens, mmask]    mmask: None or [format, [[measure, index-or-pair], ...]]"""
     import mystic.termination as mt
     kind = spec[0]
     if kind in ('Or', 'And'):
         return getattr(mt, kind)(*[build_term(s) for s in spec[1:]])
+    if kind == 'When':
+        return mt.When(build_term(spec[1]))
     if kind == 'COG':
         return mt.ChangeOverGeneration(spec[1], spec[2])
     if kind == 'VTR':
@@ -79,7 +81,7 @@ def _mask(m):
 
 
 def leaves(spec):
-    if spec[0] in ('Or', 'And'):
+    if spec[0] in ('Or', 'And', 'When'):
         for s in spec[1:]:
             for l in leaves(s):
                 yield l
